@@ -103,6 +103,12 @@ def _decode_read(t):
         return None
     if x[0] == "index" and const_eval(x[2]) is not None:
         bv = byteview(x[1])
+        root = strip(bv[0]) if bv else strip(x[1])
+        while root[0] in ("partial", "ref"):
+            root = strip(root[1])
+        if root[0] == "repeat" and strip(root[1])[0] == "const" and strip(root[1])[1] not in ("u8", "?"):
+            # `words[1]` of a [u64; 4] that a loop decodes from the buffer: an element of a derived table, not a header byte
+            raise Unusable("layout: a header field is taken from an intermediate array of %s values filled in a loop; the byte positions cannot be extracted" % strip(root[1])[1])
         off = (bv[1] if bv else 0) + const_eval(x[2])
         return off, off + 1, "u8", adj
     r = _range_consts(x)
